@@ -109,6 +109,12 @@ WellFormed(w, h) ==
     /\ \A t \in DOMAIN ac.roles : NoDup(ac.roles[t]) /\ ac.roles[t] # <<>>
     /\ \A t \in DOMAIN ac.roles : RoleCreate \in Range(ac.roles[t]) => CtrOf(ac, t) >= MaxN(h, t)
     /\ \A t \in DOMAIN ac.ctr : ac.ctr[t] > 0
+\* C07: the create-role holder's counter covers every nonce ever issued; nobody else keeps a counter
+CounterWithRole(w, h) ==
+  \A a \in Accts(w) :
+    LET ac == w.acct[a] IN
+    /\ \A t \in DOMAIN ac.roles : RoleCreate \in Range(ac.roles[t]) => CtrOf(ac, t) >= MaxN(h, t)
+    /\ \A t \in DOMAIN ac.ctr : RoleCreate \in Range(RolesOf(ac, t))
 SysClean(w) == \A s \in DOMAIN w.sysx : w.sysx[s] = <<>>
 
 =============================================================================
